@@ -852,10 +852,9 @@ def _ini_write(I, args, kwargs):
         I.native(_cp.RawConfigParser.write, parser, out, space)
         I.call(I.get_attr(fp, "write"), [out.getvalue()], {})
         return None
-    for _, items in sections:
-        for k, v in items:
-            if v is not None and not issubclass(pytype(v), str):
-                I.raise_(TypeError("can only concatenate str"))
+    # RawConfigParser._write_section renders every value with str() (a parser whose set() let a non-text value through writes its str())
+    sections = [(name, [(k, v if (v is None and parser._allow_no_value) or issubclass(pytype(v), str) else models.to_str(I, v)) for k, v in items])
+                for name, items in sections]
     text = DocText("ini", IniDoc(sections, bool(space)), None)
     if isinstance(fp, io.IOBase):
         text = "<document with symbolic content>"
